@@ -368,7 +368,7 @@ type SolverHub struct {
 
 func NewSolverHub() *SolverHub {
 	h := &SolverHub{cache: map[string]queryResult{}, stats: map[string]*SolverStats{}}
-	h.Order.Str = []string{"cvc5", "z3-new"}
+	h.Order.Str = []string{"cvc5"}
 	h.Order.Int = []string{"z3", "cvc5", "z3-new"}
 	return h
 }
@@ -415,6 +415,12 @@ func (h *SolverHub) solve(ss *solverSet, query string, vals []string, hasStr boo
 	order := h.Order.Int
 	if hasStr {
 		order = h.Order.Str
+		if strings.Contains(query, "(mod ") || strings.Contains(query, "str.to_int") {
+			order = []string{"cvc5", "z3"}
+			if strings.Contains(query, "(mod ") {
+				order = []string{"z3", "cvc5"}
+			}
+		}
 	}
 	r := queryResult{res: "unknown"}
 	for _, kind := range order {
@@ -425,6 +431,10 @@ func (h *SolverHub) solve(ss *solverSet, query string, vals []string, hasStr boo
 		t0 := time.Now()
 		res, model := p.check(query, vals)
 		h.record(kind, res, time.Since(t0))
+		if d := os.Getenv("GOSMT_DUMP_SLOW"); d != "" && time.Since(t0) > 500*time.Millisecond {
+			n := atomic.AddInt64(&dumpN, 1)
+			os.WriteFile(fmt.Sprintf("%s/slow-%s-%d-%s-%dms.smt2", d, kind, n, res, time.Since(t0).Milliseconds()), []byte(query+"(check-sat)\n"), 0644)
+		}
 		if res == "sat" || res == "unsat" {
 			r = queryResult{res: res, model: model, solver: kind}
 			break
